@@ -148,6 +148,19 @@ def search(ctx, budget):
         h = make_history(ctx.rng, nobj)
         # (root names as callers may write them: the documented lower-case alias too)
         probe = (ctx.rng.choice(['act', 'doc', 'judgment', 'bill', 'debatereport', 'debateReport', 'statement']), ctx.rng.choice(PROBES) if ctx.rng.random() < 0.7 else gen.gen_doc(ctx.rng, 'act'))
+        if ctx.rng.random() < 0.35:
+            # the probe's own text converted earlier on the same objects under another root - a sibling of the probe's root (same structure
+            # rule: act/bill, doc/statement/debateReport), any document root, or a fragment root - and, half the time, under the probe's root too
+            sib = {'act': ['bill'], 'bill': ['act'], 'doc': ['statement', 'debateReport'], 'statement': ['doc', 'debatereport'],
+                   'debateReport': ['doc', 'statement'], 'debatereport': ['statement', 'doc'], 'judgment': ['act']}[probe[0]]
+            for o in range(nobj):
+                if o == 0 or ctx.rng.random() < 0.5:
+                    other = ctx.rng.choice(sib + sib + ['hier_element', 'doc', 'act'])
+                    calls = [(o, ctx.rng.choice(['parse_to_xml', 'parse+tree_to_xml']), other, probe[1])]
+                    if ctx.rng.random() < 0.5: calls.append((o, 'parse_to_xml', probe[0], probe[1]))
+                    ctx.rng.shuffle(calls)
+                    pos = ctx.rng.choice([len(h), len(h), ctx.rng.randint(0, len(h))])
+                    h[pos:pos] = calls
         jobs.append((ctx.rng.randrange(1 << 30), nobj, h, probe))
     res = impl.pmap(run_history, jobs, chunk=8)
     # the reference for every probe is also computed by the extracted model, which has no state at all: a "fresh object" of the same
